@@ -185,6 +185,53 @@ Definition op_key_strict (name : string) (dbg : bool) : opdef :=
            | None => VBad end
        | _ => VBad end) |}.
 
+(** SESSION: one level mask, a sequence of lookups executed in order in ONE process (hidden state
+    that couples consecutive calls, also across the two functions).  args [T, [[k, q], ...]] with
+    k = 0: PathToIndexLoose(q), k = 1: PathToIndex(q) (q on a stored level).  Observation = the list
+    of per-step observations (a panic of one step is that step's P).  Model and specification are
+    per step: the functions are pure. *)
+Definition c03_step_run (dbg : bool) (T : Z) (st : val) : option val :=
+  match st with
+  | VL [VZ k; q] =>
+      match c03_node q with
+      | Some q =>
+          if c03_dom T q then
+            if k =? 0 then
+              Some (match (if dbg then PathToIndexLoose_debug else PathToIndexLoose) T (c03_word T q) with
+                    | Some p => vpairZ p | None => VPanic end)
+            else if (k =? 1) && stored T q then
+              Some (match (if dbg then PathToIndex_debug else PathToIndex) T (c03_word T q) with
+                    | Some i => VZ i | None => VPanic end)
+            else None
+          else None
+      | None => None
+      end
+  | _ => None
+  end.
+
+Definition c03_step_spec (T : Z) (st : val) : val :=
+  match st with
+  | VL [VZ k; q] =>
+      match c03_node q with
+      | Some q => if k =? 0 then vpairZ (spec_loose T (c03_h T) q) else VZ (spec_rank T (c03_h T) q)
+      | None => VBad
+      end
+  | _ => VBad
+  end.
+
+Definition op_session (name : string) (dbg : bool) : opdef :=
+  {| op_name := name;
+     op_run := fun a => match a with
+       | [VZ T; VL steps] =>
+           match opt_all (map (c03_step_run dbg T) steps) with
+           | Some l => VL l
+           | None => VBad
+           end
+       | _ => VBad end;
+     op_spec := fun_spec (fun a => match a with
+       | [VZ T; VL steps] => VL (map (c03_step_spec T) steps)
+       | _ => VBad end) |}.
+
 Definition ops_C03 : list opdef := [
   (* any node: (index, has) *)
   op_loose "bmtree.PathToIndexLoose" false;
@@ -202,5 +249,8 @@ Definition ops_C03 : list opdef := [
   op_key_loose "bmtree.PathOf+PathToIndexLoose" false;
   op_key_loose "bmtree.PathOf+PathToIndexLoose/debug" true;
   op_key_strict "bmtree.PathOf+PathToIndex" false;
-  op_key_strict "bmtree.PathOf+PathToIndex/debug" true
+  op_key_strict "bmtree.PathOf+PathToIndex/debug" true;
+  (* sessions: several lookups on one mask in one process *)
+  op_session "bmtree.PathToIndex/session" false;
+  op_session "bmtree.PathToIndex/session/debug" true
 ].
